@@ -4,6 +4,7 @@ import (
 	"errors"
 	"fmt"
 	"io"
+	"unsafe"
 
 	"github.com/ddddddO/gtree"
 	"github.com/ddddddO/gtree/simrt"
@@ -83,6 +84,7 @@ func (r *simReader) Read(p []byte) (int, error) {
 type WriterPlan struct {
 	FailAt int  `json:"fail_at"` // index of the Write call that fails; -1 never
 	Torn   bool `json:"torn"`    // the failing write accepts half of its bytes
+	Short  bool `json:"short"`   // write #FailAt accepts half of its bytes and returns a nil error (one-off)
 }
 
 var noWriterFault = WriterPlan{FailAt: -1}
@@ -112,13 +114,24 @@ func (w *simWriter) Write(p []byte) (int, error) {
 	if w.yield {
 		simrt.Yield("stub:writer")
 	}
+	// the writer is shared memory of the caller: the library must serialise its use
+	simrt.NoteAccess(uintptr(unsafe.Pointer(w)), "stub:0:writer.Write@caller's io.Writer", true)
 	idx := w.n
 	w.n++
 	task := ""
 	if t := simrt.CurrentTask(); t != nil {
 		task = t.ID
 	}
-	if w.plan.FailAt >= 0 && (idx == w.plan.FailAt || w.Fired) {
+	if w.plan.Short && idx == w.plan.FailAt && len(p) > 1 {
+		// a writer that breaks the io.Writer contract: short count, nil error
+		acc := len(p) / 2
+		w.Fired = true
+		w.segs = append(w.segs, Seg{task, len(w.buf), acc})
+		w.buf = append(w.buf, p[:acc]...)
+		w.Refused += len(p) - acc
+		return acc, nil
+	}
+	if !w.plan.Short && w.plan.FailAt >= 0 && (idx == w.plan.FailAt || w.Fired) {
 		first := !w.Fired
 		w.Fired = true
 		acc := 0
